@@ -551,8 +551,13 @@ def reshape(self, *newdims, **kwargs):
 
     assert len(newdims_unflattened) == len(set(newdims_unflattened)), "must not contain duplicate axes !"
 
-    for ax in o.axes:
-        ax.name = ax.name.replace(',',';')
+    # (rename copies held by a new object: unflatten() may have returned self, whose Axis objects must not be renamed)
+    o = o._constructor(o.values, [ax for ax in o.axes], **o.attrs)
+    for i, ax in enumerate(o.axes):
+        if ',' in ax.name:
+            ax = ax.copy()
+            ax.name = ax.name.replace(',',';')
+            o.axes[i] = ax
 
     # Remove unwanted singleton dimensions, if any
     for dim in o.dims:
